@@ -212,6 +212,8 @@ pub fn gen_map(rng: &mut Rng, opts: &GenOpts) -> GenMap {
                 (_, 0..=10) => 0,
                 (_, 11..=17) => 1,
                 (_, 18) => 2,
+                // a hold note in a non-mania map (treated as a spinner / banana shower there)
+                (_, 19) if rng.chance(1, 3) => 3,
                 _ => 0,
             },
         };
